@@ -65,6 +65,27 @@ def build_jobs(prop, tier, seed, do, monitors, streams=None, want=None, monitor_
             task.update(task_extra)
         jobs.append(Job("framework.props.models", "run_models", task, mode="jit" if (jit_share > 0 and j >= 3) else
                         "interp", timeout=300 if q else 1800, tag="focus3:%d" % j, stall_s=60 if q else 120))
+    # focus stream: one shared domain seen through several views (x, x + c, ...) inside the same constraint - the write-back
+    # intersects what the constraint computed per view, so the constraint may not have seen the final domain
+    if clean_gen().get("repeat", True):
+        for j in range(2 if q else 4):
+            task = {
+                "props": want, "seed": seed * 401 + j * 7 + 3, "count": per_job * 3,
+                "gen": clean_gen({"types": ["affine_eq", "affine_eq", "affine_eq", "affine_leq", "affine_geq", "max_eq",
+                                            "min_eq", "element_liv", "element_lic", "count_eq", "exactly_eq",
+                                            "lexicographic_leq", "alldifferent", "relation", "max_leq", "min_geq"],
+                                  "widths": [2, 3, 4, 5, 6], "max_doms": 2, "min_alias": 2, "max_alias": 4,
+                                  "max_props": 1 if j % 2 == 0 else 2, "circuit": 0.0, "big": False, "repeat_p": 1.0,
+                                  "plant": 0.5}),
+                "configs": "random", "configs_per_model": configs_per_model, "cost": False, "monitors": monitors,
+                "monitor_opts": monitor_opts or {}, "do": do, "orders": orders, "objectives_per_model": 1,
+                "max_points": 6000, "deadline_s": 50 if q else 900, "stream": "focus_views_of_one_domain",
+            }
+            if task_extra:
+                task.update(task_extra)
+            jobs.append(Job("framework.props.models", "run_models", task,
+                            mode="jit" if (jit_share > 0 and j % 2 == 1) else "interp",
+                            timeout=300 if q else 1800, tag="views:%d" % j, stall_s=60 if q else 120))
     # focus stream: models on which shaving actually shaves (probes refuted where bound consistency alone is stuck:
     # parity of linear equalities, pigeonholes) surrounded by one-directional constraints
     if "fixpoint" in monitors or "shaving" in monitors:
